@@ -265,3 +265,11 @@ Require Copia.Proofs.TieRemoteRun.
 Theorem C04_remote_run_is_translation_of_source : TieRemoteRun.remote_run_is_translation.
 Proof. exact TieRemoteRun.remote_run_is_translation_holds. Qed.
 Print Assumptions C04_remote_run_is_translation_of_source.
+
+(** What a dry run prints (one `send` line per path of plan.transfer, then one `delete` line per path of plan.delete;
+    a real run prints neither) and the exit status of a run (ok exactly when no transfer failed) are the translation of
+    incremental.rs `print_plan` / `report` as the source has them now (Gen/OneWayPrintGen.v, Proofs/TieOneWayPrint.v). *)
+Require Copia.Proofs.TieOneWayPrint.
+Theorem C04_print_and_exit_are_translation_of_source : TieOneWayPrint.oneway_print_is_translation.
+Proof. exact TieOneWayPrint.oneway_print_is_translation_holds. Qed.
+Print Assumptions C04_print_and_exit_are_translation_of_source.
